@@ -496,8 +496,11 @@ def oracle_cross(case, rec):
         rec.close(v, CR.sum() / float(n * m), "cross_recurrence_rate_value",
                   rtol=1e-12)
     # balance: (recurrences above - below the main diagonal) / their sum
-    up = float(sum(CR[i, j] for i in range(n) for j in range(m) if j > i))
-    lo = float(sum(CR[i, j] for i in range(n) for j in range(m) if j < i))
+    # (plain ints: the matrix entries are int8)
+    up = float(sum(int(CR[i, j]) for i in range(n) for j in range(m)
+                   if j > i))
+    lo = float(sum(int(CR[i, j]) for i in range(n) for j in range(m)
+                   if j < i))
     if up + lo > 0:
         okb, bal = rec.call("cross_balance", cr.balance)
         if okb:
